@@ -6,7 +6,8 @@ from vlib import Corr, Search, Failure, cz, clist, cstr
 ID = 'C30'
 LEVEL = 'proof'
 PROPS = ['Props/C30.v', 'Findings/C30.v']
-GEN = []
+from py2coq import c30rawtype
+GEN = [('Gen/C30RawType.v', c30rawtype.generate)]
 TRUSTED = [
     'hand-written executable models Model/C30Scan.v (pony.utils.parse_expr: the three regular expressions as deterministic scanners) and '
     'Model/C30Adapt.v (core.adapt_sql: scan, $$, five paramstyles, % doubling, the process-wide cache; ormtypes.parse_raw_sql), '
@@ -42,6 +43,7 @@ def run_bools(ctx, exprs, header=HEADER, chunk=500, name='c30cases'):
     for i in range(0, len(exprs), chunk):
         part = exprs[i:i + chunk]
         chunks.append('Definition cases : list bool := [\n' + ';\n'.join(part) + '].\nEval vm_compute in (failing cases).\n')
+    ctx.mkscratch()      # before the worker threads: vlib.Ctx.mkscratch is not thread-safe (each thread would create its own directory)
     outs = vlib.coq_eval_many(ctx, header, chunks, name=name)
     bad = []
     for k, out in enumerate(outs):
@@ -564,6 +566,15 @@ def search(ctx, deep):
         evals += 1
         if isinstance(f, Failure): fail(f)
         else: nontriv.add(f)
+    # one query code object with a raw_sql() fragment, re-run with $parameters of changing Python types: what is bound must be
+    # what a cold-cache run binds (the converters are chosen per parameter type and live in the cached translator)
+    for style in (STYLES if deep else ['qmark', 'pyformat']):
+        for src in RAW_QUERIES:
+            hist = type_history(rng, 10 if not deep else 40)
+            evals += len(hist); count('raw_sql_type_history', len(hist))
+            f = raw_types_case(style, src, hist)
+            if f: fail(f)
+            else: nontriv.add(('raw_types', style, src))
     # raw_sql() fragments on format-style providers: documented %-step of the driver
     for frag in ("p.name like 'a%'", "p.n % 2 = $x", 'p.n = $x', "p.name = '%s'"):
         for prov in ('postgres', 'mysql'):
@@ -636,6 +647,71 @@ def e2e(ctx, deep, env, count):
                 else: yield (style, entry, v)
 
 
+RAW_QUERIES = ['p.id for p in P if raw_sql("p.name < $when")', 'p.id for p in P if raw_sql("abs(p.n) > $lim")',
+               'p.id for p in P if raw_sql("p.name < $when or p.n > $(lim)") and p.n != lim2',
+               'raw_sql("coalesce($lim, p.n)") for p in P if p.n > 0']
+
+def enc(v):
+    import datetime, decimal
+    if v is None: return ['none']
+    if isinstance(v, datetime.datetime): return ['datetime', v.isoformat()]
+    if isinstance(v, datetime.date): return ['date', v.isoformat()]
+    if isinstance(v, decimal.Decimal): return ['decimal', str(v)]
+    return [type(v).__name__, v]
+
+def dec(e):
+    import datetime, decimal
+    k = e[0]
+    if k == 'none': return None
+    if k == 'datetime': return datetime.datetime.fromisoformat(e[1])
+    if k == 'date': return datetime.date.fromisoformat(e[1])
+    if k == 'decimal': return decimal.Decimal(e[1])
+    return {'int': int, 'float': float, 'str': str, 'bool': bool}[k](e[1])
+
+def type_history(rng, n):
+    """(when, lim, lim2) triples; consecutive steps change the Python type of at least one value; fixed prefix = the known bad orders"""
+    import datetime, decimal
+    whens = [datetime.date(2024, 1, 2), datetime.datetime(2024, 1, 2, 18, 0), '2024-01-02 12', None, datetime.date(2023, 12, 31), datetime.datetime(2024, 1, 3, 0, 0, 1)]
+    lims = [decimal.Decimal('5'), 5, 5.5, '5', None, 2, decimal.Decimal('2.5'), 7.0]
+    hist = [(whens[0], lims[0], 1), (whens[1], lims[1], 1), (whens[1], lims[2], 2), (whens[0], lims[3], 2), (whens[3], lims[4], 3), (whens[2], lims[0], 3)]
+    while len(hist) < n: hist.append((rng.choice(whens), rng.choice(lims), rng.randint(1, 3)))
+    return hist
+
+def raw_types_case(style, src, hist):
+    """warm database 'rt' keeps its caches over the history; twin 'rt-ref' is cleared before every run; first differing step -> Failure"""
+    from pony import orm
+    from props import c06
+    pair = []
+    for tag in ('rt', 'rt-ref'):
+        db, P, log = c06.make_e2e(style, tag)
+        with orm.db_session:
+            if not db.get_connection().execute('SELECT count(*) FROM "P"').fetchone()[0]:
+                for nm, n in (('2024-01-02 10:00:00', 3), ('2024-01-02 20:00:00', -7), ('2023-12-31 23:00:00', 12), ('x', 40), ('', 5)): P(name=nm, n=n)
+                orm.commit()
+        pair.append((db, P, log))
+    (db, P, log), (rdb, RP, rlog) = pair
+    db._translator_cache.clear(); db._constructed_sql_cache.clear()
+    def once(d, E, lg, when, lim, lim2):
+        with orm.db_session:
+            del lg[:]
+            try: rows = sorted(map(repr, orm.select(src, {'P': E, 'when': when, 'lim': lim, 'lim2': lim2, 'raw_sql': orm.raw_sql}).without_distinct()[:]))
+            except Exception as e: rows = 'EXC %s: %s' % (type(e).__name__, str(e)[:150])
+            return rows, (lg[-1] if lg else None)
+    prev = None
+    for i, (when, lim, lim2) in enumerate(hist):
+        warm = once(db, P, log, when, lim, lim2)
+        rdb._translator_cache.clear(); rdb._constructed_sql_cache.clear()
+        ref = once(rdb, RP, rlog, when, lim, lim2)
+        if warm != ref:
+            ty = lambda t: '%s/%s' % (type(t[0]).__name__, type(t[1]).__name__)
+            return Failure('unlisted:raw-sql-types:%s:%s-after-%s' % (style, ty(hist[i]), ty(prev) if prev else 'nothing'),
+                           'SQLite, paramstyle %s: %r run %d times with $parameters of changing types; run %d with when=%r lim=%r binds %r and returns %s; '
+                           'a cold-cache run binds %r and returns %s' % (style, src, i + 1, i + 1, when, lim, warm[1], str(warm[0])[:100], ref[1], str(ref[0])[:100]),
+                           {'kind': 'raw_types', 'style': style, 'src': src, 'hist': [[enc(a), enc(b), c] for a, b, c in hist[:i + 1]]})
+        prev = hist[i]
+    return None
+
+
 def raw_fragment_case(prov, frag):
     """raw_sql(frag) inside a query on a format-style provider (mock): the statement and the argument object Pony hands to the driver,
     then the driver's documented %-step"""
@@ -674,6 +750,7 @@ def replay(ctx, data):
         return Failure(classify(data['style'], segs, cold_ok), '%sadapt_sql(%r, %r) gives %r; the statement promises %r' % (
             'after adapt_sql(%r): ' % (data['warm'][0],) if data.get('warm') else '', render(segs), data['style'], got, want), data)
     if kind == 'raw_fragment': return raw_fragment_case(data['provider'], data['frag'])
+    if kind == 'raw_types': return raw_types_case(data['style'], data['src'], [(dec(a), dec(b), c) for a, b, c in data['hist']])
     if kind in ('e2e', 'e2e2'):
         for f in e2e(ctx, False, env, lambda *a: None):
             if isinstance(f, Failure) and f.data.get('style') == data.get('style') and f.data.get('entry') == data.get('entry'): return f
